@@ -143,7 +143,7 @@ impl FieldElement for Fp2 {
             // r0 = 0
             // r1 = -(2 * a1)^-1
             r1 = self.c1.fp_double();
-            r1 = self.c1.fp_inv();
+            r1 = r1.fp_inv();
             r1 = r1.fp_neg();
         } else if self.c1.is_zero() {
             // r1 = 0
